@@ -28,22 +28,25 @@ CONSTANTS
     Kind,      \* [Procs -> "build" | "query"]
     Mode,      \* "pinned" | "fixed"
     Exists0,   \* TRUE: the state directory already holds a database
-    NWork      \* working transactions per build command
+    NWork,     \* working transactions per build command
+    RetryWal   \* TRUE: connect() retries `pragma journal_mode = WAL` while the database is busy (repaired)
 
 VARIABLES
     file,      \* "absent" | "empty" (file without tables) | "ready"
     inode,     \* generation of the database file (unlink + create makes a new one)
+    wal,       \* TRUE once some connection has switched the file to WAL journal mode
     ver,       \* number of commits to the current file
     wlock,     \* holder of the write lock, or "none"
     runids,    \* run ids handed out
     log,       \* committed writes: set of <<proc, n>>
     ps         \* [Procs -> [pc, saw, ino, snap, mode, k, out]]
 
-vars == <<file, inode, ver, wlock, runids, log, ps>>
+vars == <<file, inode, wal, ver, wlock, runids, log, ps>>
 
 Init ==
     /\ file = IF Exists0 THEN "ready" ELSE "absent"
     /\ inode = 1 /\ ver = 0 /\ wlock = "none" /\ runids = {} /\ log = {}
+    /\ wal = Exists0
     /\ ps = [p \in Procs |-> [pc |-> "start", saw |-> FALSE, ino |-> 0, snap |-> -1, mode |-> "", k |-> 0, out |-> ""]]
 
 Set(p, r) == ps' = [ps EXCEPT ![p] = r]
@@ -54,15 +57,15 @@ MaxId == IF runids = {} THEN 0 ELSE CHOOSE m \in runids : \A x \in runids : x <=
 PExists(p) ==
     /\ Mode = "pinned" /\ ps[p].pc = "start"
     /\ Set(p, [ps[p] EXCEPT !.pc = IF file # "absent" THEN "p_open" ELSE "p_unlink", !.saw = (file # "absent")])
-    /\ UNCHANGED <<file, inode, ver, wlock, runids, log>>
+    /\ UNCHANGED <<file, inode, wal, ver, wlock, runids, log>>
 
 \* the database did not exist: unlink it (!), open (creates an empty file)
 PUnlink(p) ==
     /\ ps[p].pc = "p_unlink"
     /\ IF file # "absent"
        THEN \* somebody created it meanwhile: it is removed; whoever had it open keeps writing to a dead file
-            /\ inode' = inode + 1 /\ file' = "empty" /\ ver' = 0 /\ wlock' = "none"
-       ELSE /\ file' = "empty" /\ UNCHANGED <<inode, ver, wlock>>
+            /\ inode' = inode + 1 /\ file' = "empty" /\ ver' = 0 /\ wlock' = "none" /\ wal' = TRUE
+       ELSE /\ file' = "empty" /\ wal' = TRUE /\ UNCHANGED <<inode, ver, wlock>>
     /\ Set(p, [ps[p] EXCEPT !.pc = "p_create", !.ino = inode', !.mode = "def"])
     /\ UNCHANGED <<runids, log>>
 
@@ -74,12 +77,12 @@ PCreate(p) ==
        ELSE IF file = "ready" THEN Fail(p, "table exists") /\ UNCHANGED <<file, wlock>>
        ELSE /\ wlock' = p /\ file' = "ready"        \* visible to others only at commit; approximated
             /\ Set(p, [ps[p] EXCEPT !.pc = "runid"])
-    /\ UNCHANGED <<inode, ver, runids, log>>
+    /\ UNCHANGED <<inode, wal, ver, runids, log>>
 
 POpen(p) ==
     /\ ps[p].pc = "p_open"
     /\ Set(p, [ps[p] EXCEPT !.pc = "p_schema", !.ino = inode, !.mode = "def"])
-    /\ UNCHANGED <<file, inode, ver, wlock, runids, log>>
+    /\ UNCHANGED <<file, inode, wal, ver, wlock, runids, log>>
 
 \* read the schema version: first read of the deferred transaction takes the snapshot
 PSchema(p) ==
@@ -87,14 +90,33 @@ PSchema(p) ==
     /\ IF ps[p].ino # inode THEN Fail(p, "lost database")
        ELSE IF file # "ready" \/ (wlock # "none" /\ ver = 0 /\ ~Exists0) THEN Fail(p, "no such table")
        ELSE Set(p, [ps[p] EXCEPT !.pc = "runid", !.snap = ver])
-    /\ UNCHANGED <<file, inode, ver, wlock, runids, log>>
+    /\ UNCHANGED <<file, inode, wal, ver, wlock, runids, log>>
 
 \* ---------------------------------------------------------------- fixed start-up
+\* connect(): open (creates the file), `pragma journal_mode = WAL`.  Switching a fresh file to WAL needs it exclusively;
+\* while another connection is inside a transaction SQLite answers "database is locked" at once (the busy timeout does
+\* not apply to this pragma): the repaired connect() tries again, the pinned one fails
 FOpen(p) ==
     /\ Mode = "fixed" /\ ps[p].pc = "start"
-    /\ file' = IF file = "absent" THEN "empty" ELSE file
-    /\ Set(p, [ps[p] EXCEPT !.pc = "f_begin", !.ino = inode])
-    /\ UNCHANGED <<inode, ver, wlock, runids, log>>
+    /\ IF wal THEN
+          /\ Set(p, [ps[p] EXCEPT !.pc = "f_begin", !.ino = inode])
+          /\ UNCHANGED <<file, wal, wlock>>
+       ELSE IF wlock = "none" THEN
+          \* the switch itself holds the file exclusively for a moment
+          /\ file' = IF file = "absent" THEN "empty" ELSE file
+          /\ wlock' = p
+          /\ Set(p, [ps[p] EXCEPT !.pc = "f_switch", !.ino = inode])
+          /\ UNCHANGED wal
+       ELSE /\ ~RetryWal
+            /\ Fail(p, "could not connect")
+            /\ UNCHANGED <<file, wal, wlock>>
+    /\ UNCHANGED <<inode, ver, runids, log>>
+
+FSwitched(p) ==
+    /\ ps[p].pc = "f_switch"
+    /\ wal' = TRUE /\ wlock' = "none"
+    /\ Set(p, [ps[p] EXCEPT !.pc = "f_begin"])
+    /\ UNCHANGED <<file, inode, ver, runids, log>>
 
 \* BEGIN IMMEDIATE: waits for the write lock; then create the tables if they are not there
 FBegin(p) ==
@@ -102,7 +124,7 @@ FBegin(p) ==
     /\ wlock' = p
     /\ file' = "ready"
     /\ Set(p, [ps[p] EXCEPT !.pc = "runid", !.mode = "imm", !.snap = ver])
-    /\ UNCHANGED <<inode, ver, runids, log>>
+    /\ UNCHANGED <<inode, wal, ver, runids, log>>
 
 \* ---------------------------------------------------------------- common: new run id, commit
 RunId(p) ==
@@ -113,13 +135,13 @@ RunId(p) ==
        ELSE /\ wlock' = p
             /\ runids' = runids \cup {MaxId + 1}
             /\ Set(p, [ps[p] EXCEPT !.pc = "init_commit"])
-    /\ UNCHANGED <<file, inode, ver, log>>
+    /\ UNCHANGED <<file, inode, wal, ver, log>>
 
 InitCommit(p) ==
     /\ ps[p].pc = "init_commit"
     /\ ver' = ver + 1 /\ wlock' = "none"
     /\ Set(p, [ps[p] EXCEPT !.pc = "work", !.mode = "", !.snap = -1])
-    /\ UNCHANGED <<file, inode, runids, log>>
+    /\ UNCHANGED <<file, inode, wal, runids, log>>
 
 \* ---------------------------------------------------------------- the command itself
 \* working transaction of a build: BEGIN IMMEDIATE (waits), writes, COMMIT -- one atomic step once it holds the lock
@@ -127,7 +149,7 @@ WorkBegin(p) ==
     /\ ps[p].pc = "work" /\ Kind[p] = "build" /\ ps[p].k < NWork /\ wlock = "none"
     /\ wlock' = p
     /\ Set(p, [ps[p] EXCEPT !.pc = "work_commit"])
-    /\ UNCHANGED <<file, inode, ver, runids, log>>
+    /\ UNCHANGED <<file, inode, wal, ver, runids, log>>
 
 WorkCommit(p) ==
     /\ ps[p].pc = "work_commit"
@@ -135,22 +157,22 @@ WorkCommit(p) ==
        ELSE /\ ver' = ver + 1 /\ wlock' = "none"
             /\ log' = log \cup {<<p, ps[p].k + 1>>}
             /\ Set(p, [ps[p] EXCEPT !.pc = "work", !.k = @ + 1])
-    /\ UNCHANGED <<file, inode, runids>>
+    /\ UNCHANGED <<file, inode, wal, runids>>
 
 \* a query: one deferred read-only transaction, never commits anything
 QueryRun(p) ==
     /\ ps[p].pc = "work" /\ Kind[p] = "query"
     /\ Set(p, [ps[p] EXCEPT !.pc = "done", !.out = "ok"])
-    /\ UNCHANGED <<file, inode, ver, wlock, runids, log>>
+    /\ UNCHANGED <<file, inode, wal, ver, wlock, runids, log>>
 
 Finish(p) ==
     /\ ps[p].pc = "work" /\ Kind[p] = "build" /\ ps[p].k = NWork
     /\ Set(p, [ps[p] EXCEPT !.pc = "done", !.out = "ok"])
-    /\ UNCHANGED <<file, inode, ver, wlock, runids, log>>
+    /\ UNCHANGED <<file, inode, wal, ver, wlock, runids, log>>
 
 Next == \E p \in Procs :
     \/ PExists(p) \/ PUnlink(p) \/ PCreate(p) \/ POpen(p) \/ PSchema(p)
-    \/ FOpen(p) \/ FBegin(p) \/ RunId(p) \/ InitCommit(p)
+    \/ FOpen(p) \/ FSwitched(p) \/ FBegin(p) \/ RunId(p) \/ InitCommit(p)
     \/ WorkBegin(p) \/ WorkCommit(p) \/ QueryRun(p) \/ Finish(p)
 
 Spec == Init /\ [][Next]_vars
